@@ -10,6 +10,7 @@ import (
 	"math/rand"
 	"os"
 
+	"git.defalsify.org/vise.git/persist"
 	"git.defalsify.org/vise.git/state"
 	"git.defalsify.org/vise.git/vm"
 )
@@ -72,6 +73,64 @@ func serve(p *Program, sid string, mode string, store dbLike, inputs []string, p
 	return obs
 }
 
+// serveReuse serves two sessions alternately (A0 B0 A1 B1 ...) with a fresh engine per request but through ONE Persister
+// object over one store, as an application that keeps its persister does - WithFlush, which promises that "the state and
+// memory will be empty" after every successful Save (without it a kept persister still holds the previous session).
+func serveReuse(p *Program, sids [2]string, store dbLike, inputs [2][]string, pseeds [2]int64, flush bool, out *ndw, stats *viseStats) [2][]obsRec {
+	pe := persist.NewPersister(store)
+	if flush {
+		pe = pe.WithFlush()
+	}
+	var hosts [2]*engineHost
+	var acc, call [2]int
+	for k := 0; k < 2; k++ {
+		k := k
+		rec := &sessRec{prog: p, sid: sids[k], out: out, stats: stats}
+		hosts[k] = newHost(p, rec, "R", store, func(sym string, n int) int {
+			i := hpick(pseeds[k], acc[k], call[k], n)
+			call[k]++
+			if i < 0 {
+				i = -i
+			}
+			return i
+		})
+		hosts[k].sharedPe = pe
+	}
+	var obs [2][]obsRec
+	done := [2]bool{}
+	pos := [2]int{}
+	for !(done[0] && done[1]) {
+		for k := 0; k < 2; k++ {
+			if done[k] {
+				continue
+			}
+			if pos[k] >= len(inputs[k]) {
+				done[k] = true
+				continue
+			}
+			in := inputs[k][pos[k]]
+			pos[k]++
+			call[k] = 0
+			ev := hosts[k].request(in)
+			if inputClass(in) == "ok" {
+				obs[k] = append(obs[k], obsRec{ev.Cont, ev.Err, ev.Ferr, ev.Out})
+				acc[k]++
+				if ev.Panic != "" || !ev.Cont || ev.Err {
+					done[k] = true
+				}
+			} else if ev.Panic != "" {
+				done[k] = true
+			}
+		}
+	}
+	for k := 0; k < 2; k++ {
+		if obs[k] == nil {
+			obs[k] = []obsRec{}
+		}
+	}
+	return obs
+}
+
 var refusedInputs = []string{"\x00", " 1", "*", "_", "<", "-1", "\xff", "\n", "é"}
 
 // vise-pairs <trace-out> <programs> <sessions-per-program> <max-requests> <stores: mem[,fs][,pg]>
@@ -89,9 +148,22 @@ func cmdVisePairs(args []string) error {
 	rng := rand.New(rand.NewSource(seed()))
 	vm.VerifHook = viseHook
 	stats := &viseStats{Pairs: map[string]int{}}
+	null, _ := newNdw(os.DevNull)
+	defer null.close()
 	npairs := 0
+	type served struct {
+		sid    string
+		inputs []string
+		pseed  int64
+		b      []obsRec
+	}
 	for pi := 0; pi < nprog; pi++ {
+		var prev *served
 		p := genProgram(rng, fmt.Sprintf("q%d_%d", seed(), pi))
+		// a pre-VM check runs in the first Exec of every engine OBJECT: once in long-lived operation, in every request
+		// in persisted operation - the two modes differ by design, so paired programs have none
+		p.Engine.First = false
+		delete(p.Syms, "_first")
 		state.MaxLevel = 128
 		out.put(map[string]any{"ev": "prog", "prog": p})
 		for si := 0; si < nsess; si++ {
@@ -111,6 +183,18 @@ func cmdVisePairs(args []string) error {
 			cleanup()
 			out.put(pairEvent{Ev: "pair", Kind: "mode", Sid: sid, Store: st, Inputs: encAll(inputs), Extra: []string{}, A: a, B: b, ModeA: "L", ModeB: "P"})
 			npairs++
+			// C07: two sessions served alternately through one reused Persister object vs each with fresh persisters
+			if prev != nil {
+				rstore, rclean := newStoreC(st, sid+"r")
+				r := serveReuse(p, [2]string{prev.sid + ".R", sid + ".R"}, rstore, [2][]string{prev.inputs, inputs}, [2]int64{prev.pseed, pseed}, true, out, stats)
+				rclean()
+				out.put(pairEvent{Ev: "pair", Kind: "reuse", Sid: prev.sid, Store: st, Inputs: encAll(prev.inputs), Extra: encAll(inputs), A: prev.b, B: r[0], ModeA: "P", ModeB: "R"})
+				out.put(pairEvent{Ev: "pair", Kind: "reuse", Sid: sid, Store: st, Inputs: encAll(inputs), Extra: encAll(prev.inputs), A: b, B: r[1], ModeA: "P", ModeB: "R"})
+				npairs += 2
+				prev = nil
+			} else {
+				prev = &served{sid, inputs, pseed, b}
+			}
 			// C17: refused inputs inserted at random positions, both modes
 			var with []string
 			for _, in := range inputs {
